@@ -9,6 +9,7 @@ pub mod c07;
 pub mod c10;
 pub mod c11;
 pub mod c12;
+pub mod c14;
 pub mod c19;
 pub mod c20;
 pub mod probe;
@@ -26,6 +27,8 @@ pub fn run(name: &str, ctx: &Ctx, rep: &mut Report) -> bool {
     "c10" => c10::run(ctx, rep),
     "c11" => c11::run(ctx, rep),
     "c12" => c12::run(ctx, rep),
+    "c14" => c14::run(ctx, rep),
+    "c14-files" => c14::files(ctx, rep),
     "c19" => c19::run(ctx, rep),
     "c20" => c20::run(ctx, rep),
     "probe" => probe::run(ctx, rep),
